@@ -239,11 +239,25 @@ def bs_greeks(ctx, block):
     strike_kinds = block.get("strike_kinds", ["float", "tensor"])
     dtypes = block.get("dtypes", ["float64", "float32"])
     greeks = block.get("greeks", list(GREEKS))
-    for mspec, s_list, t_list, v_list in subgrids(block):
+    # ambient autograd mode (module Greeks must not depend on it) and argument aliasing (two parameters with
+    # equal values passed as the same tensor object / as equal but distinct tensors)
+    grad_modes = block.get("grad_modes", ["enable", "no_grad"])
+    aliases = block.get("aliases", [None])
+    if block.get("flat_points"):
+        # the explicit points form ONE flat tensor (needed for aliasing: equal coordinates element by element)
+        grids = [(None, [], [], [])]
+        layouts = ["flat"]
+    else:
+        grids = subgrids(block)
+    for mspec, s_list, t_list, v_list in grids:
         ns, nt, nv = len(s_list), len(t_list), len(v_list)
-        pts = [(a, b, c) for a in range(ns) for b in range(nt) for c in range(nv)]
-        fpts = [(s_list[a], (s_list[a] + mspec[1]) if mspec[0] == "off" else mspec[1], t_list[b], v_list[c])
-                for a, b, c in pts]
+        if mspec is None:
+            fpts = [tuple(p) for p in block["points"]]
+            pts = [(i, 0, 0) for i in range(len(fpts))]
+        else:
+            pts = [(a, b, c) for a in range(ns) for b in range(nt) for c in range(nv)]
+            fpts = [(s_list[a], (s_list[a] + mspec[1]) if mspec[0] == "off" else mspec[1], t_list[b], v_list[c])
+                    for a, b, c in pts]
         for K in block["Ks"]:
             module = make_module(product, call, K)
             model = [model_point(product, call, *fp, K) for fp in fpts]
@@ -278,10 +292,20 @@ def bs_greeks(ctx, block):
                                     continue  # these functions have no call flag: same function as the call side
                                 if what == "price" and (layout != "flat" or (sk == "tensor" and product != "european")):
                                     continue
-                                _one(ctx, G, entry, sk, layout, dname, what, idx)
+                                for gmode, alias in itertools.product(grad_modes, aliases):
+                                    if gmode == "no_grad" and not (entry == "module" and layout == "flat" and dname == "float64"
+                                                                   and what != "price"):
+                                        continue  # the module contract; bare functions are not required to enable grad
+                                    if alias is not None and (what == "price" or layout != "flat"
+                                                              or (alias[0][1] == "max_log_moneyness" and product not in NEEDS_MAX)):
+                                        continue
+                                    _one(ctx, G, entry, sk, layout, dname, what, idx, gmode, alias)
 
 
-def _one(ctx, G, entry, sk, layout, dname, what, idx):
+ARGS = ("log_moneyness", "max_log_moneyness", "time_to_maturity", "volatility")
+
+
+def _one(ctx, G, entry, sk, layout, dname, what, idx, gmode="enable", alias=None):
     dtype = DT[dname]
     product, call, K, mspec = G["product"], G["call"], G["K"], G["mspec"]
     s_list, t_list, v_list, pts, fpts = G["s"], G["t"], G["v"], G["pts"], G["fpts"]
@@ -291,12 +315,18 @@ def _one(ctx, G, entry, sk, layout, dname, what, idx):
     strike = K if sk == "float" else torch.tensor(K, dtype=torch.float64).to(dtype)
     E, TOL = G["E"][what], G["TOL"][what]
     common = {"product": product, "call": call, "Ks": [K], "entries": [entry], "strike_kinds": [sk], "dtypes": [dname],
-              "greeks": [what] if what != "price" else []}
+              "greeks": [what] if what != "price" else [], "grad_modes": [gmode], "aliases": [alias]}
+    how = ("" if gmode == "enable" else ", inside torch.no_grad()") + \
+          ("" if alias is None else f", {alias[0][1]} {'IS' if alias[1] == 'same' else 'equal to (distinct tensor)'} {alias[0][0]}")
+    ctxmgr = torch.no_grad if gmode == "no_grad" else torch.enable_grad
 
     def mini(i):
-        return dict(common, points=[list(fpts[i])], layouts=["flat" if layout == "flat" else "scalar"])
+        return dict(common, points=[list(fpts[i])], layouts=["flat" if layout == "flat" else "scalar"],
+                    **({"flat_points": True} if alias is not None else {}))
 
     def mini_grid():
+        if mspec is None:
+            return dict(common, points=[list(fp) for fp in fpts], flat_points=True)
         return dict(common, grid={"s": s_list, "t": t_list, "v": v_list, "m": [mspec]}, layouts=[layout])
 
     n = len(pts)
@@ -305,16 +335,27 @@ def _one(ctx, G, entry, sk, layout, dname, what, idx):
     if layout == "scalar":
         for i in idx:
             s, m, t, v = fpts[i]
-            o1 = call_entry(entry, product, what, call, strike, torch.tensor(s, dtype=dtype), torch.tensor(m, dtype=dtype),
-                            torch.tensor(t, dtype=dtype), torch.tensor(v, dtype=dtype), G["module"])
+            with ctxmgr():
+                o1 = call_entry(entry, product, what, call, strike, torch.tensor(s, dtype=dtype), torch.tensor(m, dtype=dtype),
+                                torch.tensor(t, dtype=dtype), torch.tensor(v, dtype=dtype), G["module"])
             if tuple(o1.shape) != () or o1.dtype != dtype:
                 ctx.violation(site, "shape_or_dtype", f"0-dim inputs gave shape {tuple(o1.shape)} dtype {o1.dtype}",
                               observed=[list(o1.shape), str(o1.dtype)], expected=[[], str(dtype)], block=mini(i))
                 return
             obs[i] = float(o1)
     else:
-        lm, mm, t, v = _tensors(layout, mspec, s_list, t_list, v_list, dtype)
-        o = call_entry(entry, product, what, call, strike, lm, mm, t, v, G["module"]).detach()
+        if mspec is None:
+            args = [torch.tensor([fp[k] for fp in fpts], dtype=dtype) for k in range(4)]
+        else:
+            args = list(_tensors(layout, mspec, s_list, t_list, v_list, dtype))
+        if alias is not None:
+            ia, ib = ARGS.index(alias[0][0]), ARGS.index(alias[0][1])
+            if not torch.equal(args[ia], args[ib]):
+                raise HarnessError(f"alias block with unequal {alias[0]} coordinates")
+            args[ib] = args[ia] if alias[1] == "same" else args[ia].clone()
+        lm, mm, t, v = args
+        with ctxmgr():
+            o = call_entry(entry, product, what, call, strike, lm, mm, t, v, G["module"]).detach()
         want_shape = (n,) if layout == "flat" else (ns, nt, nv)
         if o.dtype != dtype:
             ctx.violation(site, "dtype", f"{dname} inputs gave {o.dtype}", observed=str(o.dtype), expected=str(dtype),
@@ -350,9 +391,13 @@ def _one(ctx, G, entry, sk, layout, dname, what, idx):
             elif sk == "float" and not G["k_rep"] and dname == "float64" and route in ("delta", "gamma") \
                     and _matches_strike_rounding(product, call, entry, what, fpts[i], K, got, tol):
                 cls, st = "strike_float32_rounding", f"autogreek.{route}"
+            elif gmode == "no_grad" and got == 0.0:
+                cls = "zero_inside_no_grad"
+            elif alias is not None and alias[1] == "same":
+                cls = "aliased_arguments"
             s, m, t, v = fpts[i]
             ctx.violation(st, cls,
-                          f"{site}(s={s}, m={m}, t={t}, v={v}, K={K!r} as {sk}, call={call}, {dname}, {layout}) = "
+                          f"{site}(s={s}, m={m}, t={t}, v={v}, K={K!r} as {sk}, call={call}, {dname}, {layout}{how}) = "
                           f"{got!r}, derivative of the price = {e!r} (|diff| {abs(got - e):.3e} > tol {tol:.3e})",
                           observed=got, expected=e,
                           block=mini_grid() if cls == "broadcast_inputs_summed" else mini(i))
@@ -442,9 +487,10 @@ def bs_bound(ctx, block):
     lm = deriv.log_moneyness()
     t = deriv.time_to_maturity()
     mm = deriv.max_log_moneyness() if product in NEEDS_MAX else lm
-    for what in block.get("greeks", list(GREEKS)):
+    for what, gmode in itertools.product(block.get("greeks", list(GREEKS)), block.get("grad_modes", ["enable", "no_grad"])):
         site = f"BlackScholes({CLASSES[product][2:]}).{what}"
-        o = getattr(module, what)()
+        with (torch.no_grad if gmode == "no_grad" else torch.enable_grad)():
+            o = getattr(module, what)().detach()
         if tuple(o.shape) != (N, T):
             ctx.violation(site, "shape", f"shape {tuple(o.shape)} != {(N, T)}", block=block)
             continue
@@ -460,13 +506,16 @@ def bs_bound(ctx, block):
                 nontriv += abs(e) > 1e-12
                 if got != got or abs(got - e) > tol:
                     cls, st = ("nan" if got != got else "value"), site
+                    if cls == "value" and gmode == "no_grad" and got == 0.0:
+                        cls = "zero_inside_no_grad"
                     if cls == "value" and not k_rep and route in ("delta", "gamma") and \
                             _matches_strike_rounding(product, call, "module", what, fp, K, got, tol):
                         cls, st = "strike_float32_rounding", f"autogreek.{route}"
                     b = dict(block)
                     b["rows"] = [block["rows"][i] if block.get("rows") is not None else i]
                     b["greeks"] = [what]
-                    ctx.violation(st, cls, f"{site}() at path {spot[i].tolist()} step {j} (s={fp[0]}, m={fp[1]}, t={fp[2]}, "
+                    b["grad_modes"] = [gmode]
+                    ctx.violation(st, cls, f"{site}(){' inside torch.no_grad()' if gmode == 'no_grad' else ''} at path {spot[i].tolist()} step {j} (s={fp[0]}, m={fp[1]}, t={fp[2]}, "
                                   f"v={sigma}, K={K}) = {got!r}, derivative of the price = {e!r}",
                                   observed=got, expected=e, block=b)
         ctx.tick(N * (T - 1), nontrivial=nontriv)
@@ -610,26 +659,69 @@ def programs(ctx, block):
                     sks = strikes if "strike" in names else [[None, None]]
                     for (skind, sval), vol_form in itertools.product(sks, block.get("vol_forms", list(E.VNAMES))):
                         for layout in layouts:
-                            _program_case(ctx, block, fn, greek, tree, model, pricer, src, xname, vname, spot_form,
-                                          names, skind, sval, vol_form, layout, alpha, eps)
+                            for alias in _alias_options(block, greek, used, names, skind, vol_form):
+                                _program_case(ctx, block, fn, greek, tree, model, pricer, src, xname, vname, spot_form,
+                                              names, skind, sval, vol_form, layout, alpha, eps, alias)
+
+
+ALIAS_COMMON = [0.4, 1.1, 1.9]   # values every tensor argument (spot-like, volatility-like, time, strike) may take
+
+
+def _alias_options(block, greek, used, names, skind, vol_form):
+    """[None] for an ordinary block.  For an aliasing block: every (differentiated argument, other tensor
+    argument the pricer also uses, mode) - the two are given equal values and passed as the same tensor
+    object ('same') or as equal but distinct tensors ('equal'); the Greek is the partial derivative in both."""
+    if "alias_cases" in block:
+        return block["alias_cases"]
+    if not block.get("aliasing"):
+        return [None]
+    leaf = {names[0]: "X", vol_form: "V", "time_to_maturity": "T"}
+    d = {"delta": names[0], "gamma": names[0], "vega": vol_form, "theta": "time_to_maturity"}[greek]
+    if skind == "eq_spot" and d == names[0] == "spot":
+        leaf["strike"] = "K"    # spot=x, strike=x (at the money): only the spot can alias the strike tensor
+    out = []
+    for o in leaf:
+        if o != d and leaf[d] in used and leaf[o] in used:
+            out += [[d, o, "same"], [d, o, "equal"]]
+    return out
 
 
 def _program_case(ctx, block, fn, greek, tree, model, pricer, src, xname, vname, spot_form, names, skind, sval,
-                  vol_form, layout, alpha, eps):
+                  vol_form, layout, alpha, eps, alias=None):
     site = f"autogreek.{greek}"
     xcaller = names[0]
+    coord = {xcaller: 0, vol_form: 1, "time_to_maturity": 2}
     pts = block.get("points")
     if pts is None:
-        pts = list(itertools.product(alpha[xcaller], alpha[vol_form], alpha["time_to_maturity"]))
+        axes = [alpha[xcaller], alpha[vol_form], alpha["time_to_maturity"]]
+        if alias is not None and alias[1] != "strike":
+            # the two aliased arguments take equal values from the common alphabet
+            i, j = coord[alias[0]], coord[alias[1]]
+            k = 3 - i - j
+            pts = []
+            for c, w in itertools.product(ALIAS_COMMON, axes[k]):
+                q = [None, None, None]
+                q[i] = q[j] = c
+                q[k] = w
+                pts.append(tuple(q))
+        else:
+            pts = list(itertools.product(*axes))
     pts = [tuple(p) for p in pts]
     verdict = E.accepted(greek, tree, xname, vname, spot_form, vol_form)
-    K = None if skind is None else float(sval)
-    Km = None if K is None else mp.mpf(K)
+    if alias is not None and verdict != "ok":
+        return
+
+    def Kof(p):     # the strike of a case: a number, or (strike tensor equal to the spot tensor) the spot itself
+        return None if skind is None else (float(p[0]) if skind == "eq_spot" else float(sval))
+
+    def Kmof(p):
+        k = Kof(p)
+        return None if k is None else mp.mpf(k)
 
     def mini(p=None):
         b = {"trees": [tree], "xnames": [xname], "vnames": [vname], "greeks": [greek], "spot_forms": [spot_form],
              "vol_forms": [vol_form], "strikes": [[skind, sval]], "layouts": [layout if p is None else "scalar"],
-             "points": [list(p)] if p is not None else [list(q) for q in pts]}
+             "points": [list(p)] if p is not None else [list(q) for q in pts], "alias_cases": [alias]}
         if "alpha" in block:
             b["alpha"] = block["alpha"]
         return b
@@ -644,15 +736,21 @@ def _program_case(ctx, block, fn, greek, tree, model, pricer, src, xname, vname,
             xs, vs, ts = xs[0], vs[0], ts[0]
         kw = {xcaller: xs, vol_form: vs, "time_to_maturity": ts}
         if "strike" in names:
-            kw["strike"] = _strike_obj(skind, sval)
+            kw["strike"] = xs.clone() if skind == "eq_spot" else _strike_obj(skind, sval)
+        if alias is not None:
+            a, b_, mode = alias
+            if not torch.equal(kw[a], kw[b_]):
+                raise HarnessError(f"alias case with unequal {a}, {b_}")
+            kw[b_] = kw[a] if mode == "same" else kw[a].clone()
         return kw
 
     desc = f"autogreek.{greek}(pricer({', '.join(E.param_names(tree, xname or 'spot', vname or 'volatility'))}) = {src}; " \
-           f"caller gives {spot_form}" + (f" [strike={sval!r} as {skind}]" if skind else "") + f", {vol_form}, time_to_maturity)"
+           f"caller gives {spot_form}" + (f" [strike={sval!r} as {skind}]" if skind else "") + f", {vol_form}, time_to_maturity" + \
+           ("" if alias is None else f"; {alias[1]} {'IS the tensor object' if alias[2] == 'same' else 'is an equal copy of'} {alias[0]}") + ")"
 
     # the model's arguments at a case: the caller's floats are the truth
     def margs(p, s_shift=None):
-        return _margs(greek, xname, vname, xcaller, vol_form, K, p, s_shift)
+        return _margs(greek, xname, vname, xcaller, vol_form, Kof(p), p, s_shift)
 
     if verdict != "ok":
         want = TypeError if verdict == "TypeError" else ValueError
@@ -678,7 +776,7 @@ def _program_case(ctx, block, fn, greek, tree, model, pricer, src, xname, vname,
     for p in pts:
         mk = (p[0] if "X" in used else None, p[1] if "V" in used else None, p[2] if "T" in used else None)
         if mk not in memo:
-            r = model.greek(greek, *margs(p), Km)
+            r = model.greek(greek, *margs(p), Kmof(p))
             # rounding: c * eps * (magnitude of the derivative with all sums taken in absolute value);
             # c = 2^12 covers the conditioning of depth-2 compositions w.r.t. the few-ulp errors of the
             # re-derived arguments (spot = m K, log(spot/K), sqrt(variance)) on this alphabet
@@ -728,9 +826,11 @@ def _program_case(ctx, block, fn, greek, tree, model, pricer, src, xname, vname,
             cls = "nan" if g != g else "value"
             if cls == "value" and skind == "float" and not f32_representable(sval) and greek in ("delta", "gamma") \
                     and xcaller in ("moneyness", "log_moneyness"):
-                r2 = model.greek(greek, *margs(p, (f32_round(sval), sval)), Km)
+                r2 = model.greek(greek, *margs(p, (f32_round(sval), sval)), Kmof(p))
                 if r2 is not None and abs(g - float(r2[0])) <= tol:
                     cls = "strike_float32_rounding"
+            if cls == "value" and alias is not None and alias[2] == "same":
+                cls = "aliased_arguments"
             ctx.violation(site, cls, desc + f" at ({xcaller}, {vol_form}, T) = {list(p)}: got {g!r}, "
                           f"derivative = {e!r} (|diff| {abs(g - e):.3e} > tol {tol:.3e})",
                           observed=g, expected=e, block=mini(p))
@@ -804,6 +904,26 @@ def run(ctx):
             ctx.run("bs_greeks", b)
     else:
         ctx.run_parallel("bs_greeks", blocks)
+    # ---- argument aliasing on the Black-Scholes Greeks: equal coordinates passed as one tensor object / as copies
+    s_al, w_al = [-0.5, -0.2, -0.05, 0.05], [0.08, 0.2, 1.0]
+    ctx.alphabet("aliasing: log_moneyness", s_al)
+    ctx.alphabet("aliasing: time_to_maturity = volatility", w_al)
+    alias_blocks = []
+    for product in B.PRODUCTS:
+        moffs = [0.0, 0.05] if product in NEEDS_MAX else [0.0]
+        tv = [[s_, s_ + off, w, w] for s_ in s_al for off in moffs for w in w_al]
+        pair = ["time_to_maturity", "volatility"]
+        alias_blocks.append({"product": product, "call": True, "Ks": [2.5] if quick else [1.0, 1.3, 2.5], "points": tv,
+                             "flat_points": True, "dtypes": ["float64"], "strike_kinds": ["float"],
+                             "aliases": [[pair, "same"], [pair, "equal"], [pair[::-1], "same"]]})
+        if product in NEEDS_MAX:
+            sm = [[s_, s_, t_, v_] for s_ in s_al for t_ in (0.08, 1.0) for v_ in (0.2, 0.7)]
+            pair = ["log_moneyness", "max_log_moneyness"]
+            alias_blocks.append({"product": product, "call": True, "Ks": [2.5] if quick else [1.0, 1.3, 2.5], "points": sm,
+                                 "flat_points": True, "dtypes": ["float64"], "strike_kinds": ["float"],
+                                 "aliases": [[pair, "same"], [pair, "equal"], [pair[::-1], "same"]]})
+    for b in alias_blocks:
+        ctx.run("bs_greeks", b)
     # ---- bound modules
     bound = []
     for product in B.PRODUCTS:
@@ -827,6 +947,12 @@ def run(ctx):
     n1 = len(all_programs(1, ("X", "V", "T", "K", "C")))
     ctx.add("programs_enumerated", n1)
     b1 = {"depth": 1, "leaves": ["X", "V", "T", "K", "C"], "alpha": alpha, "strikes": STRIKES + [extra_K]}
+    # argument aliasing on the programs: (differentiated argument, another tensor argument the pricer uses)
+    ba = dict(b1, aliasing=True, spot_forms=["spot", "moneyness+strike", "log_moneyness+strike", "spot+strike"],
+              strikes=[["float", 2.5], ["eq_spot", None]])
+    ctx.alphabet("aliasing: common values", ALIAS_COMMON)
+    if quick:
+        ctx.run("programs", ba)
     if quick:
         ctx.run("programs", dict(b1, strikes=[["float", 2.5], ["float", 1.3]]))
         # the remaining strike representations and the 0-dim layout on the depth-0 programs
@@ -836,6 +962,7 @@ def run(ctx):
         step = 4
         ctx.run_parallel("programs", [dict(b1, slice=[i, min(i + step, n1)], layouts=["flat", "scalar"])
                                       for i in range(0, n1, step)])
+        ctx.run_parallel("programs", [dict(ba, slice=[i, min(i + step, n1)]) for i in range(0, n1, step)])
         n2 = len(all_programs(2, ("X", "V", "T", "C")))
         ctx.add("programs_enumerated", n2 - len(all_programs(1, ("X", "V", "T", "C"))))
         step = 60
